@@ -202,7 +202,7 @@ MUTABLE_CTORS = ('np.empty', 'np.zeros', 'np.ones', 'bytearray', 'np.frombuffer'
                  'encoding.NumpyIO', 'io.BytesIO', 'np.full')
 
 
-def scratch_buffer_rule(ctx, rule, modules=('api', 'writer', 'util', 'core', 'encoding', 'converted_types', 'dataframe', 'schema')):
+def scratch_buffer_rule(ctx, rule, modules=('api', 'writer', 'util', 'core', 'encoding', 'converted_types', 'dataframe', 'schema', 'compression')):
     """no module-level array / buffer objects: a buffer shared by all calls is shared by all threads"""
     n = 0
     for mn in modules:
@@ -212,11 +212,27 @@ def scratch_buffer_rule(ctx, rule, modules=('api', 'writer', 'util', 'core', 'en
                 if isinstance(v, tuple):
                     continue
                 n += 1
-                bad = isinstance(v, ast.Call) and (callee(v) in MUTABLE_CTORS)
+                bad = (isinstance(v, ast.Call) and (callee(v) in MUTABLE_CTORS)) or (
+                    isinstance(v, (ast.List, ast.Tuple, ast.Dict, ast.Set)) and any(
+                        isinstance(c, ast.Call) and callee(c) in MUTABLE_CTORS for c in ast.walk(v)))
                 ctx.ob(rule, '%s.%s:module-level-name-is-not-a-shared-buffer' % (mn, name), not bad,
                        '%s = %s at module level: a scratch buffer that every call (and thread) reuses' % (name, norm(v)[:60]),
                        m.loc(v), nontrivial=False)
+    for mn in tuple(modules):
+        m = ctx.repo[mn]
+        for q, f in m.funcs.items():
+            for st in walk_no_nested(f):
+                if isinstance(st, ast.Global):
+                    n += 1
+                    ok = (mn, q) in GLOBAL_OK
+                    ctx.ob(rule, '%s.%s:no-module-state-rebound-by-a-call:%s' % (mn, q, ','.join(st.names)), ok,
+                           '`global %s` in %s.%s: state kept between calls (a cached buffer, a last result) is shared by every '
+                           'caller and thread, and what one call hands out the next one overwrites' % (', '.join(st.names), mn, q), m.loc(st))
     return n
+
+
+# functions that rebind module state on the pinned tree, each with the reason it is harmless
+GLOBAL_OK = {}
 
 LOOPEXITS_REF = os.path.join(os.path.dirname(os.path.dirname(os.path.abspath(__file__))), 'loopexits.json')
 
@@ -409,12 +425,18 @@ def if_chain_rule(ctx, rule, callers=None):
 GUARDS_REF = os.path.join(os.path.dirname(os.path.dirname(os.path.abspath(__file__))), 'guards.json')
 
 
-def guard_texts(f):
+def _guard_nodes(f):
     out = []
     for x in walk_no_nested(f):
         if isinstance(x, (ast.If, ast.While, ast.IfExp)):
-            out.append(norm(x.test))
-    return sorted(out)
+            out.append(x.test)
+        elif isinstance(x, ast.comprehension):
+            out.extend(x.ifs)          # a comprehension filter guards the element expression
+    return out
+
+
+def guard_texts(f):
+    return sorted(norm(t) for t in _guard_nodes(f))
 
 
 def _operands(e, op):
@@ -436,7 +458,7 @@ def guard_conjunct_rule(ctx, rule, callers=None):
             continue
         if callers is not None and not any(name == c or name.startswith(c + '.') or c == m.name for c in callers):
             continue
-        cur_nodes = [x.test for x in walk_no_nested(f) if isinstance(x, (ast.If, ast.While, ast.IfExp))]
+        cur_nodes = _guard_nodes(f)
         cur = [norm(t) for t in cur_nodes]
         gone = list(ref[name])
         new = []
@@ -465,6 +487,112 @@ def guard_conjunct_rule(ctx, rule, callers=None):
                         ctx.ob(rule, '%s:guard-`%s`-keeps-its-operands' % (name, old[:60]), False,
                                'on the reference tree the guard is `%s`; now it is `%s`: the guarded code %s' % (old[:90], t[:120], what),
                                m.loc(node))
+    return n
+
+
+LOOPSTORES_REF = os.path.join(os.path.dirname(os.path.dirname(os.path.abspath(__file__))), 'loopstores.json')
+
+
+def loop_stores(f):
+    """[(target text, depends on a name bound by the enclosing loop)] for every attribute/subscript store whose
+    target goes through a loop variable: `for v in X: v.a = E`"""
+    out = []
+    for loop in [x for x in walk_no_nested(f) if isinstance(x, ast.For)]:
+        bound = {n.id for n in ast.walk(loop.target) if isinstance(n, ast.Name)}
+        local = set(bound)
+        for st in ast.walk(loop):
+            if isinstance(st, ast.Assign):
+                for tg in st.targets:
+                    for n in ast.walk(tg):
+                        if isinstance(n, ast.Name) and isinstance(n.ctx, ast.Store):
+                            local.add(n.id)
+            elif isinstance(st, (ast.For, ast.comprehension)) and st is not loop:
+                for n in ast.walk(st.target):
+                    if isinstance(n, ast.Name):
+                        local.add(n.id)
+        for st in ast.walk(loop):
+            if isinstance(st, ast.Assign) and len(st.targets) == 1 and isinstance(st.targets[0], (ast.Attribute, ast.Subscript)):
+                tg = st.targets[0]
+                base = {n.id for n in ast.walk(tg) if isinstance(n, ast.Name)}
+                if not base & local:
+                    continue
+                dep = any(isinstance(n, ast.Name) and n.id in local for n in ast.walk(st.value))
+                out.append([norm(tg), bool(dep)])
+    return out
+
+
+def loop_store_rule(ctx, rule, callers=None):
+    """a value stored into each element of a loop that was computed from that element (or from something bound
+    inside the loop) on the pinned tree is still computed per element: a hoisted, loop-invariant value gives
+    every element the first element's answer"""
+    if not os.path.exists(LOOPSTORES_REF):
+        return 0
+    ref = json.load(open(LOOPSTORES_REF))
+    n = 0
+    for m, q, f in ctx.repo.functions():
+        name = '%s.%s' % (m.name, q)
+        if name not in ref:
+            continue
+        if callers is not None and not any(name == c or name.startswith(c + '.') or c == m.name for c in callers):
+            continue
+        cur = {}
+        for t, dep in loop_stores(f):
+            cur.setdefault(t, []).append(dep)
+        for t, dep in ref[name]:
+            if not dep or t not in cur:
+                continue
+            n += 1
+            ctx.ob(rule, '%s:per-element-store-`%s`-computed-per-element' % (name, t[:50]), any(cur[t]),
+                   'on the reference tree the value stored into `%s` depends on the loop element; now it is loop-invariant' % t, m.loc(f))
+    return n
+
+
+STMTGUARDS_REF = os.path.join(os.path.dirname(os.path.dirname(os.path.abspath(__file__))), 'stmtguards.json')
+
+
+def call_stmt_guards(f):
+    """{statement text: [enclosing if/while tests with the arm]} for call statements that occur once in f"""
+    cfg = CFG(f)
+    seen = {}
+    for st in iter_child_stmts(f.body):
+        if isinstance(st, ast.Expr) and isinstance(st.value, ast.Call):
+            t = norm(st)
+            g = sorted('%s/%s' % (norm(e.test), fld) for e, fld in cfg.enclosing_tests(st) if isinstance(e, (ast.If, ast.While)))
+            seen.setdefault(t, []).append(g)
+    return {t: g[0] for t, g in seen.items() if len(g) == 1}
+
+
+def stmt_guard_rule(ctx, rule, callers=None):
+    """a call statement that exists once on the pinned tree and still exists keeps its set of enclosing conditions:
+    an added condition makes a previously unconditional step optional (directory creation, handle refresh ...), a
+    removed one runs it where it was excluded"""
+    if not os.path.exists(STMTGUARDS_REF):
+        return 0
+    ref = json.load(open(STMTGUARDS_REF))
+    n = 0
+    for m, q, f in ctx.repo.functions():
+        name = '%s.%s' % (m.name, q)
+        if name not in ref:
+            continue
+        if callers is not None and not any(name == c or name.startswith(c + '.') or c == m.name for c in callers):
+            continue
+        cur = call_stmt_guards(f)
+        all_tests = set(guard_texts(f))
+        for t, g in ref[name].items():
+            if t not in cur:
+                continue
+            now = cur[t]
+            if now == g:
+                n += 1
+                continue
+            added = [x for x in now if x not in g]
+            lost = [x for x in g if x not in now]
+            # a reference guard whose test text no longer exists anywhere was rewritten, not removed: not comparable
+            if any(x.rsplit('/', 1)[0] not in all_tests for x in lost):
+                continue
+            n += 1
+            ctx.ob(rule, '%s:`%s`-runs-under-the-same-conditions' % (name, t[:60]), False,
+                   'conditions added: %s; conditions no longer enclosing it: %s' % (added or 'none', lost or 'none'), m.loc(f))
     return n
 
 
@@ -574,3 +702,5 @@ def general_rules(ctx, tag, callers):
     flag_accumulation_rule(ctx, tag + '.CS9', callers=callers)
     if_chain_rule(ctx, tag + '.CS10', callers=callers)
     guard_conjunct_rule(ctx, tag + '.CS11', callers=callers)
+    loop_store_rule(ctx, tag + '.CS12', callers=callers)
+    stmt_guard_rule(ctx, tag + '.CS13', callers=callers)
